@@ -22,6 +22,24 @@ fn run_scan(ctx: &Ctx, laws: bool) -> i32 {
     let njobs = jobs.len() as u64;
     let sum = run_cases(ctx, njobs, |i| {
         let job = &jobs[i as usize];
+        if let Job::F { p } = job {
+            // stacks of several blended cels: oracle fold (C03 only; the laws are two-layer statements)
+            let mut res = CaseResult::default();
+            res.nontrivial = true;
+            res.outcomes.push("plane:F-stacks".into());
+            if laws {
+                res.nontrivial = false;
+                res.outcomes = vec!["skipped:F-stacks-not-used-by-laws".into()];
+                return res;
+            }
+            let stack = stack_f(ctx.seed, *p);
+            res.feature = crate::rng::mix(crate::rng::hash_str(&stack.label)) | 1;
+            let npx = stack.w as u64 * stack.h as u64;
+            res.leaves = npx;
+            res.count("pixels_rendered_and_compared", npx * (stack.layers.len() as u64 - 1));
+            res.violations = check_stack(&stack);
+            return res;
+        }
         let (plane, modes) = job_plane(job, ctx.seed);
         let npx = plane.back.len() as u64;
         let mut res = CaseResult::default();
